@@ -734,7 +734,7 @@ func (st *c17State) coverage() map[string]interface{} {
 		perQ[k[:strings.IndexByte(k, '|')]]++
 	}
 	cov["nontrivial_pairs_by_query"] = perQ
-	cov["states"] = st.stateSummary
+	cov["states_detail"] = st.stateSummary
 	cov["samples"] = st.samples
 	cov["rule"] = "at every quiescent point (chain committed; the first one before the prefix tilt = small state, later ones prefix-rich and with >100 rows per table) every query of the base, basket, marketplace and data query services is sent through the real gRPC query router. " +
 		"evaluations = list comparisons + no-pagination comparisons + page walks + single-entity comparisons. " +
